@@ -69,6 +69,15 @@ CLAIMED = {
         "PARTIAL: IEEE-754 rounding is outside the proof. Trusted: Lean kernel, tty ioctl, harness/ptyhost.py.",
         "DESIGN.md section 5, C15",
     ),
+    "C16": (
+        "Lean 4 invariant proof tracked_sound over all call histories (tracker model vs terminal specification) + differential correspondence on a real pty with the Lean terminal answering cursor queries; thorough: real tmux",
+        "Theorems in lean/Tup/Props/C16.lean: for every terminal size and every history of the modelled calls, tracked = some p implies p is the "
+        "specification terminal's cursor after the bytes written so far (also stated on the raw byte stream). Random and structured call sequences "
+        "run on a real GraphicsTerminal over a pty; tracked position and bytes are compared with the model after every call and the real tracked "
+        "position is judged against Spec.Term fed with the real bytes (thorough: against tmux's own cursor).",
+        "Trusted: Spec.Term (+ the three tmux corrections in Term.feedP) as the conforming terminal; cprClamps = false (terminal reports the pending-wrap column).",
+        "DESIGN.md section 5, C16",
+    ),
     "C17": (
         "Lean 4 theorems over a model of validate_and_normalize and the layer fold (option table regenerated from the code) + differential correspondence through the real constructor",
         "Theorems in lean/Tup/Props/C17.lean (precedence, layer_labels, printer/parser round trips, wrong_type_rejected, same_text_every_layer[_partial]); "
